@@ -813,9 +813,11 @@ impl Generator {
             5 => Action::Advance {
                 secs: *rng.pick(&[1u64, 2, 7, 7, 21, 60]),
             },
-            6 => Action::ArmLaunchFail {
-                w: *rng.pick(&live_workers),
-            },
+            6 => {
+                let w = *rng.pick(&live_workers);
+                // half of the armed faults are slow stops (a process that takes its time to die)
+                if rng.chance(50, 100) { Action::ArmSlowStop { w } } else { Action::ArmLaunchFail { w } }
+            }
             7 => {
                 // submit: new closed job, or into an existing job (open -> ok, closed -> invalid)
                 let invalid = rng.chance(p.p_invalid, 100);
